@@ -13,6 +13,7 @@ import DvcData.Model.State
 import DvcData.Model.Store
 import DvcData.Model.Checkout
 import DvcData.Model.Build
+import DvcData.Model.IndexLazy
 open Lean DvcData
 
 /-! Line-protocol driver: one JSON request per line on stdin, one JSON answer per line on stdout.
@@ -581,6 +582,57 @@ def opNames (j : Lean.Json) : Except String Lean.Json := do
       ("roundtrip", .bool ((Build.materialise staged.store staged.entries) == some (t.map fun e => (e.1, files.getD e.2 []))))]
   pure (Lean.Json.mkObj [("files", strArr fnames), ("trees", Lean.Json.arr treeOut.toArray)])
 
+/-! ### lazy index queries -/
+
+def lentryTo (e : IndexLazy.LEntry) : Lean.Json :=
+  Lean.Json.arr #[.bool e.isdir, match e.hash with | some h => .str h | none => .null]
+
+def keyLtJ (a b : Path.Key × IndexLazy.LEntry) : Bool := decide (a.1 ≤ b.1)
+
+def opLazy (j : Lean.Json) : Except String Lean.Json := do
+  let idx0 ← (← arr j "entries").toList.mapM fun e => do
+    let k ← keyOf (← e.getObjVal? "key")
+    let h := match e.getObjVal? "hash" with | .ok (.str s) => some s | _ => none
+    pure (k, ({ isdir := boolOf e "isdir", hash := h, loaded := boolOf e "loaded" } : IndexLazy.LEntry))
+  let listings ← (← arr j "listings").toList.mapM fun p => do
+    match (← p.getArr?).toList with
+    | [o, es] =>
+      let ents ← (← es.getArr?).toList.mapM fun e => do
+        match (← e.getArr?).toList with
+        | [k, f] => pure (← keyOf k, ← f.getStr?)
+        | _ => throw "listing entry"
+      pure (← o.getStr?, ents)
+    | _ => throw "listing"
+  let load : String → Option IndexLazy.Listing := fun o => (listings.find? (·.1 = o)).map (·.2)
+  let mut idx := idx0
+  let mut outs : Array Lean.Json := #[]
+  for q in (← arr j "queries") do
+    match (← str q "q") with
+    | "get" =>
+      let (i', r) := IndexLazy.getItem load idx (← keyOf (← q.getObjVal? "key"))
+      idx := i'
+      outs := outs.push (match r with | some e => lentryTo e | none => Lean.Json.str "KeyError")
+    | "iter" =>
+      let (i', items) := IndexLazy.iterItems load idx (← keyOf (← q.getObjVal? "key"))
+      idx := i'
+      outs := outs.push (Lean.Json.arr ((items.mergeSort keyLtJ).map fun e => Lean.Json.arr #[keyTo e.1, lentryTo e.2]).toArray)
+    | "ls" =>
+      let (i', r) := IndexLazy.lsAt load idx (← keyOf (← q.getObjVal? "key"))
+      idx := i'
+      outs := outs.push (match r with
+        | some ks => Lean.Json.arr ((ks.mergeSort fun a b => decide (a ≤ b)).map keyTo).toArray
+        | none => Lean.Json.str "KeyError")
+    | "expand" =>
+      let ex := IndexLazy.expand load idx
+      outs := outs.push (Lean.Json.arr ((ex.mergeSort keyLtJ).map fun e => Lean.Json.arr #[keyTo e.1, lentryTo e.2]).toArray)
+    | "view" =>
+      -- prefix-closed filter given as the list of accepted keys
+      let acc ← (← arr q "accept").toList.mapM keyOf
+      let items := IndexLazy.viewItems load idx fun k => acc.contains k
+      outs := outs.push (Lean.Json.arr ((items.mergeSort keyLtJ).map fun e => Lean.Json.arr #[keyTo e.1, lentryTo e.2]).toArray)
+    | o => throw s!"bad lazy query {o}"
+  pure (Lean.Json.mkObj [("results", Lean.Json.arr outs)])
+
 def kindOf (s : String) : Except String Merge.Kind :=
   match s with
   | "add" => pure .add | "remove" => pure .remove | "change" => pure .change
@@ -622,6 +674,7 @@ def dispatch (j : Json) : Except String Json := do
   | "obj_checkout" => opObjCheckout j
   | "needs_relink" => opNeedsRelink j
   | "names" => opNames j
+  | "lazy" => opLazy j
   | "ping" => pure (Json.mkObj [("pong", true)])
   | op => throw s!"unknown op {op}"
 
